@@ -228,6 +228,44 @@ def ev_sx(ev):
     raise ValueError(g)
 
 
+def _txt(t):
+    return ''.join(chr(int(c)) for c in t)
+
+
+def sx_dir(t):
+    if t[0] == 'out':
+        return ['out', int(t[1])]
+    return [t[0], int(t[1]), _txt(t[2])] + ([_txt(t[3])] if t[0] == 'app' else [])
+
+
+def sx_ev(t):
+    """inverse of ev_sx on a parsed s-expression (used for the witness histories printed by the model driver)"""
+    if t == 'newproc':
+        return dict(NEWPROC)
+    g = t[0]
+    if g == 'newproj':
+        return {'gen': 'newproj', 't': int(t[1]), 'name': _txt(t[2]), 'apps': [[_txt(a), p] for a, p in t[3]]}
+    if g == 'edit':
+        return {'gen': 'useredit', 'dir': sx_dir(t[1]), 'fname': _txt(t[2]), 'n': int(t[3])}
+    o = t[-1]
+    ev = {'gen': g, 'app': _txt(o[0]), 'prefix': _txt(o[1]), 'init': o[2] == 'true', 'dir': sx_dir(o[3]), 'spec_file': 'spec'}
+    ints = lambda l: [int(x) for x in l]
+    if g == 'soup':
+        sp = t[2]
+        ev.update(impl=t[1], spec={'id': int(sp[0]), 'root': None if sp[1] == 'none' else [ints(p) for p in sp[1]],
+                                   'uses': ints(sp[2]), 'msgs': ints(sp[3])})
+    elif g == 'fix':
+        sp = t[1]
+
+        def tree(x):
+            return [int(x[0]), ints(x[1]), [tree(k) for k in x[2]]]
+        ev['spec'] = {'id': int(sp[0]), 'version': int(sp[1]), 'fields': ints(sp[2]), 'msgfields': ints(sp[3]),
+                      'groups': [tree(x) for x in sp[4]], 'counts': ints(sp[5])}
+    elif g == 'asn1':
+        ev.update(spec={'files': [[_txt(f), int(c)] for f, c in t[1]]}, pdu=_txt(t[2]), package=_txt(t[3]))
+    return ev
+
+
 def ev_step(ev):
     """abstract event -> concrete worker step (real XML / ASN.1 text, relative directories)"""
     g = ev['gen']
@@ -471,13 +509,18 @@ class Pool:
 
     def segment(self, base, steps):
         p = self._get()
-        p.stdin.write(json.dumps({'base': base, 'steps': steps}) + '\n')
-        p.stdin.flush()
-        line = p.stdout.readline()
+        watchdog = threading.Timer(300, p.kill)      # a generator that hangs is an infrastructure error (exit 2), not a verdict
+        watchdog.start()
+        try:
+            p.stdin.write(json.dumps({'base': base, 'steps': steps}) + '\n')
+            p.stdin.flush()
+            line = p.stdout.readline()
+        finally:
+            watchdog.cancel()
+        if not line:
+            raise RuntimeError('generator worker died or timed out')
         with self.lock:
             self.free.append(p)
-        if not line:
-            raise RuntimeError('zygote died')
         return json.loads(line)
 
     def map(self, fn, items):
@@ -745,9 +788,20 @@ def oracle(case, real, fresh_real):
     return bad
 
 
+def confirm_state_leak(pool, case, k, kind, fresh_real):
+    """a deviation is attributed to leaked process state only if it disappears when the failing invocation gets a fresh process
+    (same file system history)"""
+    h = case[:k] + [dict(NEWPROC), case[k]]
+    rl = run_history(pool, h)
+    return not any(kd in (kind, 'other') and j == len(h) - 1 for _w, kd, j in oracle(h, rl, fresh_real))
+
+
 # ------------------------------------------------------------------------------------------------ generators of histories
 APPS = ['x', 'y', 'oe']
 PREFIXES = ['', '', 'p']
+NAMES = [1, 2, 3]            # field-definition names / group names (thorough: one more)
+FIELDS = [1, 2, 3, 4]        # FIX field names
+DEPTHS = [0, 1, 1, 2]        # nesting depth of FIX groups
 
 
 class SpecFactory:
@@ -759,7 +813,7 @@ class SpecFactory:
 
     def soup(self, root_mode=None):
         rng = self.rng
-        names = [1, 2, 3]
+        names = NAMES
         mode = root_mode or rng.choice(['root', 'root', 'root', 'noroot-uses', 'noroot-plain', 'empty-root'])
         if mode == 'root':
             root = [[n, rng.randrange(len(SOUP_TYPES))] for n in rng.sample(names, rng.randint(1, 3))]
@@ -797,12 +851,12 @@ class SpecFactory:
     def tree(self, depth):
         rng = self.rng
         kids = [self.tree(depth - 1) for _ in range(rng.choice([0, 0, 1, 2]) if depth > 0 else 0)]
-        return [rng.choice([1, 2, 3]), [rng.choice([1, 2, 3, 4]) for _ in range(rng.randint(0, 2))], kids]
+        return [rng.choice(NAMES), [rng.choice(FIELDS) for _ in range(rng.randint(0, 2))], kids]
 
     def fix(self, groups=None):
         rng = self.rng
-        groups = groups if groups is not None else [self.tree(rng.choice([0, 1, 1, 2])) for _ in range(rng.choice([0, 1, 1, 2]))]
-        msgfields = [rng.choice([1, 2, 3, 4]) for _ in range(rng.randint(0, 2))]
+        groups = groups if groups is not None else [self.tree(rng.choice(DEPTHS)) for _ in range(rng.choice([0, 1, 1, 2]))]
+        msgfields = [rng.choice(FIELDS) for _ in range(rng.randint(0, 2))]
 
         def used(t):
             f, g = set(t[1]), {t[0]}
@@ -816,7 +870,7 @@ class SpecFactory:
             a, b = used(t)
             f |= a
             g |= b
-        extra = {rng.choice([1, 2, 3, 4])} if rng.random() < 0.4 else set()
+        extra = {rng.choice(FIELDS)} if rng.random() < 0.4 else set()
         version = rng.choice([44, 44, 50, 502, 502, 42] if rng.random() < 0.25 else [44, 50, 502])
         return self._fix(version, sorted(f | extra), msgfields, groups, sorted(g))
 
@@ -829,7 +883,7 @@ class SpecFactory:
         rng = self.rng
         c = rng.randrange(3)
         if c == 0:
-            return self._fix(s['version'], sorted(set(s['fields']) | {rng.choice([1, 2, 3, 4])}), s['msgfields'], s['groups'], s['counts'])
+            return self._fix(s['version'], sorted(set(s['fields']) | {rng.choice(FIELDS)}), s['msgfields'], s['groups'], s['counts'])
         if c == 1 and s['groups']:
             return self.fix(groups=s['groups'][:-1])
         return self.fix()
@@ -969,8 +1023,25 @@ def gen_history(rng):
     return out, shape
 
 
-def witness_histories():
-    """the histories of Witness/C17.lean (and a few neighbours), replayed on the implementation on every run"""
+def witness_histories(ctx):
+    """the histories of Witness/C17.lean, printed by the model driver from the Lean definitions themselves (`witness C17`), plus
+    a few neighbours; when the driver is unavailable, hand-written copies"""
+    extra = [h for h in builtin_histories() if not h[1].startswith('witness')]
+    if ctx.driver.available:
+        try:
+            t = parse_sx(ctx.driver.ask(['witness C17'])[0])
+            hs = [([sx_ev(e) for e in h[1:]], h[0]) for h in t]
+            for evs, _l in hs:       # the sx round trip is the identity (self-test of the printer / parser pair)
+                for e in evs:
+                    assert sx_ev(parse_sx(sx(ev_sx(e)))[0]) == e, e
+            ctx.notes.append(f'{len(hs)} witness histories taken from Witness/C17.lean through the driver')
+            return hs + extra
+        except Exception as e:  # noqa
+            ctx.notes.append(f'witness histories: driver answer unusable ({type(e).__name__}), using the built-in copies')
+    return builtin_histories()
+
+
+def builtin_histories():
     d1, d2 = ['out', 1], ['out', 2]
     A = {'id': 1, 'root': [[1, 0], [2, 1]], 'uses': [1, 2], 'msgs': [65, 66]}
     C = {'id': 2, 'root': None, 'uses': [1], 'msgs': [65]}
@@ -1049,6 +1120,8 @@ def evaluate(ctx, pool, cases, label_of):
         # ---- oracle
         try:
             for what, kind, k in oracle(case, rl, fresh_real):
+                if kind in ('fix-generator-state-leak', 'fielddef-leak') and not confirm_state_leak(pool, case, k, kind, fresh_real):
+                    kind = 'other'       # not explained by process state: the deviation survives a fresh process
                 ctx.count('oracle:' + kind)
                 rep = {'kind': kind, 'history': case[:k + 1], 'step': k, 'label': label}
                 report(ctx, f'{label}: invocation {k} ({case[k]["gen"]}): {what}', rep)
@@ -1115,7 +1188,10 @@ def run(ctx):
     from common import REPO, VERIF
     rng = ctx.rng
     quick = ctx.tier == 'quick'
-    n_rand = 260 if quick else 5000
+    n_rand = 800 if quick else 15000
+    global NAMES, FIELDS, DEPTHS, APPS
+    if not quick:
+        NAMES, FIELDS, DEPTHS, APPS = [1, 2, 3, 4], [1, 2, 3, 4, 5], [0, 1, 1, 2, 3], ['x', 'y', 'oe', 'md']
     ctx.cov['rule'] = ('histories of 1..3 invocations of the real soup-app (itch/ouch/sqf), FIX, ASN.1 generators and new_project: '
                        'same spec repeated / edited spec / other spec, same / other output directory, same / other target '
                        '(app, prefix, init flag), one process / a process per invocation / mixed, same or distinct spec file path, '
@@ -1131,8 +1207,8 @@ def run(ctx):
             for f in sorted(os.listdir(cdir)):
                 c = json.load(open(os.path.join(cdir, f)))
                 cases.append(c['history'])
-                labels.append('corpus:' + f)
-        for h, label in witness_histories():
+                labels.append(c.get('label', 'corpus:' + f))
+        for h, label in witness_histories(ctx):
             cases.append(h)
             labels.append(label)
         for _ in range(n_rand):
